@@ -33,7 +33,7 @@ CONNS = [None, "close", "keep-alive"]
 METHODS = ["GET", "HEAD", "POST"]
 STATUSES = ["200 OK", "204 No Content", "304 Not Modified", "100 Continue"]
 CLMODES = ["absent", "exact", "larger", "smaller"]
-SHAPES = ["empty", "one", "several", "write", "mixed"]
+SHAPES = ["empty", "one", "several", "write", "mixed", "write-one"]
 RETS = ["list", "tuple", "gen", "iterlen", "fw_seek", "fw_noseek", "fw_seek_big", "fw_seek_pos"]
 FAILS = ["none", "before-sr", "after-sr", "after-output"]
 SENDS = ["all", "one", "blocked"]
@@ -56,6 +56,9 @@ def shape_steps(shape, marker):
         return [["write", a], ["write", b]]
     if shape == "mixed":
         return [["write", a], ["yield", b], ["yield", ""], ["yield", c]]
+    if shape == "write-one":
+        # write() first, then an iterable of exactly one chunk (the server infers a length from len()==1)
+        return [["write", a], ["yield", c]]
     raise ValueError(shape)
 
 
@@ -72,8 +75,10 @@ def build_cell(cell):
         if shape != "empty" or ret.startswith("fw_"):
             return None
     if ret.startswith("fw_"):
-        if shape != "empty":
+        if shape not in ("empty", "write"):
             return None
+        if shape == "write":
+            prog["steps"] = steps = [["write", "W%s=" % marker]]
         content = "0123456789"
         pos = 0
         if ret == "fw_seek_big":
@@ -83,7 +88,7 @@ def build_cell(cell):
             pos = 3
             prog["ret"] = "fw_seek"
         prog["fw"] = {"content": content, "pos": pos}
-        produced_len = len(content) - pos
+        produced_len = len(content) - pos + sum(len(a) for op, a in prog["steps"] if op == "write")
     else:
         produced_len = sum(len(a) for op, a in steps if op in ("write", "yield"))
     if ret in ("gen", "iterlen") and shape in ("write",):
@@ -269,7 +274,8 @@ def judge_pipeline(acc, reqs, progs, send, lazy, case):
         else:
             want_body = delivered
             if cl is not None:
-                if prog["ret"].startswith("fw_seek") and late is None:
+                fw_fast = prog["ret"].startswith("fw_seek") and not any(op == "write" for op, _ in prog["steps"])
+                if fw_fast and late is None:
                     # the server reconciles the length with the file up front
                     want_len = min(cl, len(delivered))
                     want_body = delivered[:want_len]
@@ -291,7 +297,8 @@ def judge_pipeline(acc, reqs, progs, send, lazy, case):
             if got != want_body:
                 bad("body-differs", f"body {got[:50]!r} (len {len(got)}) != intended {want_body[:50]!r} (len {len(want_body)})")
                 break
-            if r["framing"] == "cl" and I["body_bearing"] and cl is not None and not prog["ret"].startswith("fw_seek"):
+            if r["framing"] == "cl" and I["body_bearing"] and cl is not None and not (
+                    prog["ret"].startswith("fw_seek") and not any(op == "write" for op, _ in prog["steps"])):
                 if r.get("declared") != cl:
                     bad("content-length-altered", f"Content-Length {r.get('declared')} != declared {cl}")
         else:
